@@ -13,7 +13,7 @@ import (
 )
 
 func c04Weights() hWeights {
-	return hWeights{deliver: 36, ack: 8, ackidx: 26, save: 8, savebegin: 2, saveend: 2, rebalance: 5, ackold: 13,
+	return hWeights{deliver: 36, ack: 8, ackidx: 26, save: 8, savebegin: 2, saveend: 2, rebalance: 7, ackold: 17, failover: 3, end: 4, transientOnly: true,
 		absorbed: 12, maxVb: scale(4, 8), minOps: 1, maxOps: scale(70, 250)}
 }
 
@@ -42,8 +42,12 @@ func c04Run(sc *hScenario) (*hViolation, map[string]bool) {
 			s.rebalance(op)
 		case "ackold":
 			s.ackOld(op)
+		case "end":
+			s.end(op)
+		case "failover":
+			s.failover(op)
 		}
-		if s.viol != nil {
+		if s.viol != nil || s.stopped {
 			break
 		}
 		// the offsets API view agrees with the model for every assigned vBucket, at every step
